@@ -129,3 +129,45 @@ where
 
     sm.get_multi(&cmd.keys).map_err(|e| ReadActorError::SmError(e.to_string()))
 }
+
+/// Verification hook (only with `--cfg d_engine_verif`): runs the real `run_read_actor` over a batch of commands
+/// that are all queued before the actor starts (so it drains them in one wake-up) and returns one code per command:
+/// 1 served, 2 `LeaseInvalid`, 3 `SmStopped`, 4 `SmError`, 0 no reply. Adds no behaviour.
+#[cfg(d_engine_verif)]
+pub async fn verif_read_actor_batch<SM>(
+    cmds: Vec<(Vec<Bytes>, ReadConsistencyPolicy)>,
+    lease: Arc<ReadLease>,
+    sm: Arc<SM>,
+    max_drain: usize,
+) -> Vec<u8>
+where
+    SM: StateMachine,
+{
+    let (tx, rx) = mpsc::channel(cmds.len().max(1));
+    let mut replies = Vec::new();
+    for (keys, consistency) in cmds {
+        let (reply, rrx) = oneshot::channel();
+        let _ = tx
+            .send(ReadCmd {
+                keys,
+                consistency,
+                reply,
+            })
+            .await;
+        replies.push(rrx);
+    }
+    drop(tx);
+    run_read_actor(rx, lease, sm, max_drain).await;
+    let mut out = Vec::new();
+    for mut r in replies {
+        out.push(match r.try_recv() {
+            Ok(Ok(_)) => 1,
+            Ok(Err(ReadActorError::LeaseInvalid)) => 2,
+            Ok(Err(ReadActorError::SmStopped)) => 3,
+            Ok(Err(ReadActorError::SmError(_))) => 4,
+            Err(_) => 0,
+        });
+    }
+    out
+}
+
